@@ -132,8 +132,43 @@ func (es *ExpressionStatement) WriteTo(cw *CodeWriter) {
 	if es.Expression == nil {
 		return
 	}
+	// A statement that begins with `{` or `function` is a block or a declaration. The parser's
+	// trees carry the parentheses of such an expression as a GroupedExpression; a tree that was
+	// put together by hand may not, and gets them here.
+	needsParens := beginsLikeStatement(es.Expression)
+	if needsParens {
+		cw.WriteRune('(')
+	}
 	es.Expression.WriteTo(cw)
+	if needsParens {
+		cw.WriteRune(')')
+	}
 	cw.WriteSemi()
+}
+
+// beginsLikeStatement reports whether the text of an expression starts with an object
+// literal or a function expression: it follows the operands that are printed first.
+func beginsLikeStatement(e Expression) bool {
+	for {
+		switch n := e.(type) {
+		case *ObjectLiteral, *FunctionExpression:
+			return true
+		case *BinaryExpression:
+			e = n.Left
+		case *PostfixExpression:
+			e = n.Left
+		case *CallExpression:
+			e = n.Function
+		case *MemberExpression:
+			e = n.Object
+		case *AssignmentExpression:
+			e = n.Left
+		case *CompoundAssignmentExpression:
+			e = n.Left
+		default:
+			return false
+		}
+	}
 }
 
 type FunctionDeclaration struct {
